@@ -38,7 +38,7 @@ def pmap(fn, items, nworkers=None, chunksize=1, budget_s=None, placeholder=None)
     if n <= 1 or len(items) <= 1:
         return [fn(i) for i in items]
     if budget_s is None:
-        budget_s = float(os.environ.get("VERIF_MAP_BUDGET", "2400" if os.environ.get("VERIF_TIER") != "thorough" else "14400"))
+        budget_s = float(os.environ.get("VERIF_MAP_BUDGET", "2400" if os.environ.get("VERIF_TIER") != "thorough" else "5400"))
     ctx = mp.get_context("fork")
     pool = ctx.Pool(min(n, len(items)), maxtasksperchild=25)
     t_end = time.time() + budget_s
